@@ -33,7 +33,7 @@ if ! git apply "$SRC/patch.diff" 2>/dev/null; then
   if ! git apply -3 "$SRC/patch.diff" 2>/tmp/vs/$NAME.apply.log; then echo "$NAME FAIL patch-does-not-apply"; exit 1; fi
   git reset -q
 fi
-git diff > /tmp/vs/$NAME.patch.diff
+git add -A . >/dev/null 2>&1; git diff --cached > /tmp/vs/$NAME.patch.diff; git reset -q   # (--cached after add: new files are part of the change)
 if ! "$GO" build ./... > /tmp/vs/$NAME.build.log 2>&1; then echo "$NAME FAIL build"; exit 1; fi
 if ! VERIF_REPO="$WT" /verif/tools/baseline.sh > /tmp/vs/$NAME.baseline.log 2>&1; then echo "$NAME FAIL baseline-changed: $(grep MISSING /tmp/vs/$NAME.baseline.log | head -3 | tr '\n' ' ')"; exit 1; fi
 cp "$SRC/demo_test.go" "$place"
